@@ -1,5 +1,6 @@
 import Driver.Util
 import Capnp.Model.Promise
+import Driver.JoinRefs
 /-! ops of domain `promise`: sequential API scripts over `Model.Promise` -/
 namespace Driver.Promise
 open Capnp.Model.Promise
@@ -52,6 +53,7 @@ def run : List String → String
     ";".intercalate out
   | ["joinpending"] => "ok"      -- a promise joined while its parent was resolving behaves as resolved afterwards
   | ["joinchain"] => "ok"        -- pipelined clients live until the last ReleaseClients of the chain
+  | ["joinseq", script] => Driver.JoinRefs.run script
   | ["joininflight"] => "ok"     -- a call made while Join waits for an in-flight call is delivered once, to the parent's caller
   | ["joinrel", _, _] => "ok"    -- clients of a joined chain live until every promise released; the result capability is shut down once
   | ["joinrel", _] => "ok"
